@@ -760,8 +760,8 @@ class C03(Property):
     def rule(self):
         return ('cases: value (data type x hard regex x values: every observation point and representation), struct '
                 '(event type, valid event, one fault), history (define/upgrade/clear/validate steps with one long-lived '
-                'validator, a writer session and the parser of the written stream); non-trivial = at least one accepted '
-                'and one rejected verdict in the case; distinct by content')
+                'validator, a writer session and the parser of the written stream); non-trivial = value / history cases in '
+                'which accepted and rejected verdicts both occur, struct cases with a verdict; distinct by content')
 
     # -- generation
     def generate(self, rng, tier):
@@ -1039,8 +1039,14 @@ class C03(Property):
                 n -= 1
                 yield dict(case, length=n)
 
-    def nontrivial(self, case):
-        return json.dumps(case, sort_keys=True)
+    def nontrivial_obs(self, case, obs):
+        vs = obs.get('verdicts') if isinstance(obs, dict) else None
+        if vs is None:
+            vs = [obs.get('verdict')] if isinstance(obs, dict) else []
+        flat = [v for v in vs if isinstance(v, bool)]
+        if case['kind'] == 'struct':
+            return json.dumps(case, sort_keys=True) if flat else None
+        return json.dumps(case, sort_keys=True) if (True in flat and False in flat) else None
 
     def sample_view(self, case):
         if case['kind'] == 'value':
